@@ -115,6 +115,59 @@ def effectiveSecret (configured connField draw : Bytes) : Bytes × Bytes :=
   else if connField.length == 0 then (draw, draw)
   else (connField, connField)
 
+/-- `io.ReadFull(r, buf)` with `len(buf) = n` over a reader that may return short reads:
+`chunks` = how many bytes the successive `Read` calls are willing to deliver (a `Read` returns
+at least one byte and never more than the rest of the buffer), `stream` = the bytes the reader
+produces.  The loop of `io.ReadAtLeast`: keep reading into the rest of the buffer until it is
+full.  (The list of chunks running out = the reader failing; not modelled further.) -/
+def readFull (stream : Bytes) : List Nat → Nat → Bytes
+  | _, 0 => []
+  | [], _ + 1 => []
+  | c :: cs, n + 1 =>
+    let k := min (max c 1) (n + 1)
+    stream.take k ++ readFull (stream.drop k) cs (n + 1 - k)
+
+/-- the per-connection secret when none is configured: `secretLen` bytes read with `io.ReadFull`
+from the connection's random source (`config.rand()`), whatever the sizes of its reads -/
+def drawSecret (secretLen : Nat) (stream : Bytes) (chunks : List Nat) : Bytes :=
+  (effectiveSecret [] [] (readFull stream chunks secretLen)).1
+
+/-! ### the address text
+
+`serverHandshake` passes `c.remoteAddr.String()` to `generateCookie` / `verifyCookie`.  For the
+addresses the net package reports (`*net.UDPAddr`) that text is
+`net.JoinHostPort(host, strconv.Itoa(port))`: the printed host (an IPv6 literal, with its zone, in
+brackets), a colon, the decimal port. -/
+
+/-- `strconv.Itoa` of a natural number, ASCII -/
+def dec (n : Nat) : Bytes :=
+  if n < 10 then [b8 (48 + n)] else dec (n / 10) ++ [b8 (48 + n % 10)]
+decreasing_by omega
+
+def colon : UInt8 := 0x3a
+
+/-- printed host ‖ ":" ‖ decimal port -/
+def hostPort (host : Bytes) (port : Nat) : Bytes := host ++ colon :: dec port
+
+def isDigit (b : UInt8) : Bool := 48 ≤ b.toNat && b.toNat ≤ 57
+
+/-- split an address text at its last colon and read the decimal port after it -/
+def splitHostPort (t : Bytes) : Option (Bytes × Nat) :=
+  let r := t.reverse
+  let digits := (r.takeWhile (· != colon)).reverse
+  match r.dropWhile (· != colon) with
+  | [] => none
+  | _ :: hostRev =>
+    if digits.isEmpty || !digits.all isDigit then none
+    else some (hostRev.reverse, digits.foldl (fun a d => a * 10 + (d.toNat - 48)) 0)
+
+/-- the (host, port) an address text of the form host:port stands for; `none` when the text is not
+the canonical print of a host and a 16-bit port (leading zeros, port out of range, no colon) -/
+def endpointOf (t : Bytes) : Option (Bytes × Nat) :=
+  match splitHostPort t with
+  | some (h, p) => if p < 65536 && hostPort h p == t then some (h, p) else none
+  | none => none
+
 /-! ### sizes -/
 
 def recordHeaderLen : Nat := 13
